@@ -2,16 +2,34 @@
 import numpy as np
 from vf import gen
 
-SOLVER_TIGHT = {'sslsolver': True, 'semicoarsening': True,
-                'linerelaxation': True, 'verb': -1}
+# BiCGSTAB + plain F-cycle: with cycling semicoarsening / line relaxation the
+# pre-conditioner runs three cycles per call and its stagnation test aborts the
+# whole solve ("STAGNATED (returned field is zero)") once the inner residual
+# reaches rounding level, which happens for tol ~ 1e-11.
+SOLVER_TIGHT = {'sslsolver': True, 'semicoarsening': False,
+                'linerelaxation': False, 'verb': -1, 'maxit': 200}
+
+
+def all_converged(sim, which=('efield', 'bfield')):
+    """True if every recorded solve of the simulation reports exit == 0."""
+    for w in which:
+        d = getattr(sim, f'_dict_{w}_info', None)
+        if d is None:
+            continue
+        for src, dd in d.items():
+            for freq, info in dd.items():
+                info = sim._load(info, 'info') if info is not None else None
+                if info is not None and info['exit'] != 0:
+                    return False
+    return True
 
 
 def problem_spec(r, shape=None, case=None, mapping=None, nsrc=None, nfreq=None,
                  nrec=None, src_kinds=None, rec_kinds=None, allow_relative=True,
                  nan_frac=None, noise=None, stretched=None):
     """JSON-able description of a small survey problem (no emg3d objects)."""
-    shape = tuple(shape or gen.choice(r, [(8, 8, 8), (8, 8, 8), (6, 10, 8),
-                                          (10, 6, 8)]))
+    shape = tuple(shape or gen.choice(r, [(8, 8, 8), (8, 8, 8), (8, 10, 8),
+                                          (10, 8, 8)]))
     case = case or gen.choice(r, gen.CASES)
     mapping = mapping or gen.choice(r, gen.MAPPINGS)
     base = float(10.0**r.uniform(1.7, 2.3))          # ~50-200 m cells
@@ -48,13 +66,38 @@ def problem_spec(r, shape=None, case=None, mapping=None, nsrc=None, nfreq=None,
                               'TxMagneticDipole']
     rec_kinds = rec_kinds or ['RxElectricPoint', 'RxElectricPoint',
                               'RxMagneticPoint']
+    receivers = []
+    src_margin = 2
+    for _ in range(nrec):
+        kind = gen.choice(r, rec_kinds)
+        rel = bool(allow_relative and r.random() < 0.25)
+        # A magnetic receiver's adjoint source (curl^T of a face
+        # interpolation) reaches one cell further than an electric one: keep
+        # it two cells inside, or the back-propagation source touches
+        # tangential boundary edges and the solver cannot converge (exit=1).
+        m = 2 if kind == 'RxMagneticPoint' else 1
+        if rel and kind == 'RxMagneticPoint':
+            src_margin = 3
+        if rel:
+            # small offset relative to the source centre; stays inside the
+            # second..second-last cell because sources are two cells inside
+            off = [float(r.uniform(-0.9, 0.9)*base*0.8) for _ in range(3)]
+            coords = off + [float(r.uniform(-180, 180)),
+                            float(r.uniform(-90, 90))]
+        else:
+            coords = [inside(0, m, m), inside(1, m, m), inside(2, m, m),
+                      float(r.uniform(-180, 180)), float(r.uniform(-90, 90))]
+        receivers.append({'kind': kind, 'coordinates': coords,
+                          'relative': rel})
     sources = []
     for _ in range(nsrc):
         kind = gen.choice(r, src_kinds)
         strength = float(10.0**r.uniform(0, 2))
 
         def pt():
-            return [inside(0, 2, 2), inside(1, 2, 2), inside(2, 2, 2)]
+            return [inside(0, src_margin, src_margin),
+                    inside(1, src_margin, src_margin),
+                    inside(2, src_margin, src_margin)]
         if kind in ('TxElectricPoint', 'TxMagneticPoint'):
             coords = pt() + [float(r.uniform(-180, 180)),
                              float(r.uniform(-90, 90))]
@@ -75,21 +118,6 @@ def problem_spec(r, shape=None, case=None, mapping=None, nsrc=None, nfreq=None,
             pts = [pt() for _ in range(int(r.integers(3, 5)))]
             sources.append({'kind': kind, 'coordinates': pts,
                             'strength': strength})
-    receivers = []
-    for _ in range(nrec):
-        kind = gen.choice(r, rec_kinds)
-        rel = bool(allow_relative and r.random() < 0.25)
-        if rel:
-            # small offset relative to the source centre; stays inside the
-            # second..second-last cell because sources are two cells inside
-            off = [float(r.uniform(-0.9, 0.9)*base*0.8) for _ in range(3)]
-            coords = off + [float(r.uniform(-180, 180)),
-                            float(r.uniform(-90, 90))]
-        else:
-            coords = [inside(0, 1, 1), inside(1, 1, 1), inside(2, 1, 1),
-                      float(r.uniform(-180, 180)), float(r.uniform(-90, 90))]
-        receivers.append({'kind': kind, 'coordinates': coords,
-                          'relative': rel})
     freqs = sorted(float(10.0**r.uniform(-0.5, 0.7)) for _ in range(nfreq))
     while len(set(freqs)) < nfreq:
         freqs = sorted(float(10.0**r.uniform(-0.5, 0.7)) for _ in range(nfreq))
